@@ -208,13 +208,21 @@ class Parser:
             return False
         if v in ('auto', 'const', 'bool', 'int', 'unsigned', 'static', 'constexpr', 'type_id'):
             return True
-        # std::size_t x ...  /  std::uintptr_t* p
+        if v in ('return', 'if', 'for', 'while', 'else', 'break', 'continue', 'this', 'new', 'delete', 'sizeof', 'nullptr', 'true', 'false'):
+            return False
+        # <type> <name> followed by = ; , ( {   (an expression statement cannot start with two adjacent names)
         save = self.i
         try:
             name = self.qualified_name()
-            if name in TYPE_START or name in self.template_names and False:
+            if name in TYPE_START:
                 return True
-            return False
+            if self.at('<'):
+                self.template_args()
+            while self.at('*') or self.at('&'):
+                self.next()
+            nm = self.peek()
+            fol = self.peek(1)
+            return nm[0] == 'id' and fol[0] == 'op' and fol[1] in ('=', ';', ',', '(', '{')
         except Unsupported:
             return False
         finally:
@@ -442,6 +450,9 @@ class Parser:
         if k == 'num':
             self.next()
             return ('num', int(re.sub(r'[uUlL]+$', '', v), 0))
+        if k == 'str':
+            self.next()
+            return ('str', v)
         if k == 'op' and v == '(':
             self.next()
             e = self.parse_expr()
